@@ -69,13 +69,18 @@ def run(tier, argv):
         p = vlib.run_harness(hr, ["c12mix", "-scenario", scenario, "-rounds", "25" if quick else "400"], timeout=6000, env_extra={"GORACE": "halt_on_error=0 exitcode=66"})
         err = p.stderr.decode("utf-8", "replace")
         if p.returncode not in (0, 66):
+            # (the race detector's reports and the runtime's last words share stderr and may be interleaved)
             i = err.find("fatal error: concurrent map")
-            if i >= 0 and not (scenario == "sharedallof" and KF_ID in kf):
+            if i < 0 and "fatal error:" in err and "concurrent map" in err:
+                i = err.find("fatal error:")
+            in_allof = "compiler_all_of" in err[max(i, 0):max(i, 0) + 3000]
+            if i >= 0 and not (scenario == "sharedallof" and KF_ID in kf and in_allof):
                 # the Go runtime itself names unsynchronised access to a map: the run is evidence, not a dead driver
                 bad.append({"what": "goroutine mix: the Go runtime aborted the process: " + err[i:i + 60].split("\n")[0], "scenario": scenario, "first_race": err[i:i + 1500]})
                 rep.notes.setdefault("mixes", []).append({"scenario": scenario, "aborted": True})
                 continue
-            raise vlib.Infra("c12mix failed: " + err[-2000:])
+            heads = [l for l in err.split("\n") if l.startswith("fatal error:") or l.startswith("panic:")]
+            raise vlib.Infra("c12mix failed: %s ... %s" % (heads[:3], err[-2000:]))
         races = err.count("WARNING: DATA RACE")
         sm = None
         for l in err.split("\n"):
